@@ -335,6 +335,81 @@ func checkCharEntropy(p *core.Program, r *core.Report) {
 				reqNonEmpty = true
 			}
 		}
+		// the same test with the size accessor written out: `len(sets) != 0 && union(sets).s.Cardinality() != 0`
+		if !reqEmpty && !reqNonEmpty {
+			cond := func(gd core.Guard) (empty, nonEmpty bool) {
+				rel, ok := core.AsRel(gd)
+				if !ok {
+					return
+				}
+				k, isC := core.ConstInt(rel.Y)
+				if !isC || k != 0 {
+					return
+				}
+				isReqSets := func(v ssa.Value) bool {
+					ref, okP := core.LoadPath(v)
+					return okP && ref.Path == "."+requiredSetsField(p) && ref.Root == ssa.Value(al)
+				}
+				if x, isLen := core.LenOf(rel.X); isLen && isReqSets(x) {
+					return rel.Op == token.EQL, false // no required sets at all: nothing required
+				}
+				if cc, isCall := rel.X.(*ssa.Call); isCall && cc.Call.IsInvoke() && cc.Call.Method.Name() == "Cardinality" {
+					// Cardinality of the set field of the union of the required sets
+					recv := core.StripType(cc.Call.Value)
+					if fl, isF := recv.(*ssa.Field); isF {
+						recv = fl.X
+					} else if ld, isLd := recv.(*ssa.UnOp); isLd {
+						if fa, isFA := ld.X.(*ssa.FieldAddr); isFA {
+							if al2, isAl2 := fa.X.(*ssa.Alloc); isAl2 {
+								for _, ref := range core.Referrers(al2) {
+									if st, isSt := ref.(*ssa.Store); isSt && st.Addr == ssa.Value(al2) {
+										recv = st.Val
+									}
+								}
+							}
+						}
+					}
+					if uc, isU := recv.(*ssa.Call); isU && len(uc.Call.Args) == 1 && isReqSets(uc.Call.Args[0]) {
+						if f := core.StaticCallee(uc); f != nil && p.InLib(f) {
+							return rel.Op == token.EQL, rel.Op == token.NEQ || rel.Op == token.GTR
+						}
+					}
+				}
+				return
+			}
+			b := ret.Block()
+			for _, gd := range core.Guards(b) {
+				e, ne := cond(gd)
+				reqEmpty = reqEmpty || e
+				reqNonEmpty = reqNonEmpty || ne
+			}
+			if !reqEmpty && !reqNonEmpty && len(b.Preds) >= 2 {
+				// reached from several tests, each of which establishes "nothing required" on its own
+				all := true
+				for _, pb := range b.Preds {
+					gs := append([]core.Guard{}, core.Guards(pb)...)
+					if len(pb.Succs) == 2 && pb.Succs[0] != pb.Succs[1] {
+						idx := 0
+						if pb.Succs[1] == b {
+							idx = 1
+						}
+						if eg, ok := core.EdgeCond(pb, idx); ok {
+							gs = append(gs, eg)
+						}
+					}
+					one := false
+					for _, gd := range gs {
+						if e, _ := cond(gd); e {
+							one = true
+						}
+					}
+					if !one {
+						all = false
+					}
+				}
+				reqEmpty = all
+			}
+		}
 		// the same test spelled as a search: a sweep over the required sets that
 		// leaves for the counting path at the first non-empty one, the simple term after it
 		if !reqEmpty && !reqNonEmpty {
